@@ -54,5 +54,18 @@ CLAIMED['C07'] = dict(
     technique="TLA+ model of build/probe/cache checked by TLC against the shared relational definition; spec->code "
               "case replay incl. cross-check with the real merge joins; code->spec trace validation by TLC",
     design="3/C07")
+CLAIMED['C08'] = dict(
+    text="TLC checks SetOps.tla - the two-pointer loops of itercomplement (strict and non-strict, the b-is-None "
+         "exhaustion marker) and iterintersection, one action per branch, and the Counter-based hash variants - "
+         "against multiset difference / strict difference / intersection (SetDefs.tla), ascending output, the "
+         "definition's exact sequence, and complement + intersection = a, for all pairs of row sequences up to the "
+         "bound. Every TLC-generated pair of tables is replayed on complement, intersection, diff, recordcomplement, "
+         "recorddiff (b's fields permuted), hashcomplement and hashintersection under value profiles, buffersizes, "
+         "cache and presorted; Hypothesis table pairs are validated by TLC (SetOpsTrace).",
+    note="Rectangular tables as the property states; bounds <= 4 rows per side over 3 distinct rows in the loop model, "
+         "<= 3 rows over 4 distinct 2-cell rows (with None) in generated cases, <= 20 rows in validated traces.",
+    technique="TLA+ transcription of the merge loops checked by TLC against bag algebra; spec->code case replay; "
+              "code->spec trace validation by TLC",
+    design="3/C08")
 
 NOT_APPLICABLE = {}
